@@ -879,3 +879,162 @@ Proof.
     destruct NE as [NE|NE]; [exists w3, []|exists w3, s_QUIT]; repeat split; auto;
       rewrite NE, N2, ?app_nil_r, <- ?app_assoc; reflexivity.
 Qed.
+
+(** DATA and the end of data by the reply grammar: letters, and whether the body was sent *)
+Definition dot_letters (scr : script) : list N :=
+  match take_reply scr with
+  | RComplete c _ _ => [dot_letter c]
+  | RBrokenFirst => [L_Z]
+  | RBrokenCont c => [dot_letter c]
+  end.
+Definition ref_data (rest : script) : list N * bool :=
+  match rest with
+  | EvLine l :: rest' =>
+      match line_code l with
+      | Some c => if Nat.eqb c 354 then (dot_letters rest', true)
+                  else ([if Nat.leb 500 c then L_D else L_Z], false)
+      | None => ([L_Z], false)
+      end
+  | _ => ([L_Z], false)
+  end.
+
+Definition data_then_exit (i : input) (scr : script) (w : world) : res unit :=
+  match send_data i scr w with
+  | Ret _ _ w2 => exit_with (shutdown_clean w2)
+  | Exit c w' => Exit c w'
+  | Unmodelled y => Unmodelled y
+  end.
+
+Lemma rej_perm_D x : hd 0%N (cstr QR_DATA_REJ_PERM ++ x) = L_D. Proof. reflexivity. Qed.
+Lemma rej_temp_Z x : hd 0%N (cstr QR_DATA_REJ_TEMP ++ x) = L_Z. Proof. reflexivity. Qed.
+Lemma data_go c : negb (Z.of_nat c =? QR_DATA_GO)%Z = negb (Nat.eqb c 354).
+Proof. unfold QR_DATA_GO. f_equal. destruct (Nat.eqb_spec c 354); lia. Qed.
+Lemma data_perm c : (QR_DATA_PERM_FROM <=? Z.of_nat c)%Z = Nat.leb 500 c.
+Proof. unfold QR_DATA_PERM_FROM. lia. Qed.
+#[local] Opaque QR_DATA_REJ_TXT.
+
+Lemma send_data_sem i rest w : w_sock w = true ->
+  let '(ls, body) := ref_data rest in
+  exists w' q, data_then_exit i rest w = Exit 0 w' /\ (q = [] \/ q = s_QUIT)
+    /\ w_net w' = w_net w ++ s_DATA ++ (if body then i_body i ++ end_of_data i else []) ++ q
+    /\ appended w w' ls.
+Proof.
+  intros Hs. unfold data_then_exit, send_data.
+  set (w1 := netwrite QR_CMD_DATA w).
+  assert (H1 : w_sock w1 = true /\ w_status w1 = w_status w /\ w_net w1 = w_net w ++ s_DATA) by (subst w1; cbn; auto).
+  destruct H1 as (K1 & S1 & N1).
+  assert (Aw : forall w' ls, appended w1 w' ls -> appended w w' ls).
+  { intros w' ls (reps & H1 & H3 & H4). exists reps. rewrite H1, S1. auto. }
+  assert (Hexit : forall w0, net_exit w1 w0 -> z_appended w1 w0 [] ->
+            exists w' q, Exit (A:=unit) 0 w0 = Exit 0 w'
+              /\ (q = [] \/ q = s_QUIT) /\ w_net w' = w_net w ++ s_DATA ++ [] ++ q /\ appended w w' [L_Z]).
+  { intros w0 NE ZA.
+    destruct NE as [NE|NE]; [exists w0, []|exists w0, s_QUIT]; repeat split; auto using z_appended_one;
+      rewrite NE, N1, ?app_nil_r, <- ?app_assoc; reflexivity. }
+  destruct rest as [|ev rest'].
+  { cbn [ref_data netget1]. destruct (died_exit_sem w1) as (w0 & E & NE & ZA). rewrite E.
+    unfold exit_with. cbn [fst snd]. apply Hexit; assumption. }
+  pose proof (netget_ev_sem ev w1 K1) as HN. cbn [netget1].
+  destruct ev as [l| | | | |]; cbn [ref_data];
+    try (destruct HN as (w0 & E0 & NE & ZA); rewrite E0; unfold exit_with; cbn [fst snd]; apply Hexit; assumption).
+  destruct (line_code l) as [c|] eqn:El;
+    [|destruct HN as (w0 & E0 & NE & ZA); rewrite E0; unfold exit_with; cbn [fst snd]; apply Hexit; assumption].
+  rewrite HN. clear Hexit. rewrite data_go, data_perm.
+  set (w2 := set_linein l w1).
+  destruct (Nat.eqb c 354) eqn:E354; cbn [negb].
+  - (* go ahead: body, end of data, the final reply *)
+    set (w4 := netwrite (if i_lastlf i then QR_DOT_AFTER_LF else QR_DOT_NO_LF) (net_put (i_body i) w2)).
+    assert (H4 : w_sock w4 = true /\ w_status w4 = w_status w /\ w_net w4 = w_net w ++ s_DATA ++ i_body i ++ end_of_data i).
+    { subst w4 w2. unfold netwrite, net_put. cbn [set_linein w_sock w_status w_net].
+      rewrite N1, S1, <- !app_assoc. repeat split; auto. do 3 f_equal.
+      unfold end_of_data. destruct (i_lastlf i); reflexivity. }
+    destruct H4 as (K4 & S4 & N4).
+    assert (Aw4 : forall w' ls, appended w4 w' ls -> appended w w' ls).
+    { intros w' ls (reps & H1 & H3 & H4). exists reps. rewrite H1, S4. auto. }
+    pose proof (checkreply_sem (Some QR_ST_DOT) (Some (successmsg i)) QR_MASK_DOT rest' w4 K4 st_dot_ok) as HC.
+    unfold dot_letters.
+    destruct (take_reply rest') as [c2 m rest2| |c2].
+    + rewrite dot_silent in HC. destruct HC as (w5 & E5 & K5 & N5 & A5). rewrite E5.
+      destruct (clean_after w5 K5) as (w' & EC & NC & SC). exists w', s_QUIT. repeat split; auto.
+      * rewrite NC, N5, N4, <- !app_assoc. reflexivity.
+      * apply Aw4. destruct A5 as (reps & H1 & H3 & H4). exists reps. rewrite SC. auto.
+    + destruct HC as (w5 & E5 & NE & A5). rewrite E5.
+      destruct NE as [NE|NE]; [exists w5, []|exists w5, s_QUIT]; repeat split; auto;
+        rewrite NE, N4, ?app_nil_r, <- ?app_assoc; reflexivity.
+    + rewrite dot_silent, dot_early in HC. destruct HC as (w5 & E5 & NE & A5). rewrite E5.
+      destruct NE as [NE|NE]; [exists w5, []|exists w5, s_QUIT]; repeat split; auto;
+        rewrite NE, N4, ?app_nil_r, <- ?app_assoc; reflexivity.
+  - (* DATA refused: one report, clean shutdown *)
+    unfold exit_with, shutdown_clean, write_status_m, st_put. cbn [w_sock set_linein fst snd]. subst w2.
+    cbn [set_linein w_sock]. rewrite K1. cbn [fst snd]. eexists. exists s_QUIT.
+    split; [reflexivity|]. split; [auto|]. split.
+    { unfold quitmsg, netwrite, net_put. cbn [w_net w_status w_linein w_sock set_linein].
+      change (cstr QR_CMD_QUIT) with s_QUIT. rewrite N1, <- !app_assoc. reflexivity. }
+    unfold quitmsg, netwrite, net_put. cbn [w_net w_status w_linein w_sock set_linein]. cbn [map concat].
+    set (x := if Nat.leb 500 c then QR_DATA_REJ_PERM else QR_DATA_REJ_TEMP).
+    apply (appended_one _ _ (cstr x ++ cstr QR_DATA_REJ_TXT ++ cstr (skipn 4 l) ++ [LF])).
+    + cbn [w_status]. rewrite S1, term_eq, app_nil_r, <- !app_assoc. reflexivity.
+    + subst x. destruct (Nat.leb 500 c); [apply rej_perm_D|apply rej_temp_Z].
+    + subst x. destruct (Nat.leb 500 c); discriminate.
+    + repeat apply nulfree_app; try apply cstr_nulfree. apply nulfree_cons; [apply LF_ne0|constructor].
+Qed.
+
+(** the whole run by the reply grammar: letters of all reports, RCPT TO commands sent when they go
+    out one by one, and whether DATA (and the body) was sent *)
+Definition ref_main (i : input) : list N * nat * option bool :=
+  let '(ls, j, k) := ref_env i in
+  match k with
+  | None => (ls, j, None)
+  | Some rest => let '(ld, b) := ref_data rest in (ls ++ ld, length (i_rcpts i), Some b)
+  end.
+Definition main_tail (i : input) (d : option bool) : bytes :=
+  match d with
+  | None => []
+  | Some b => s_DATA ++ (if b then i_body i ++ end_of_data i else [])
+  end.
+Definition cmds_fit (i : input) : Prop :=
+  pipel i = false -> short_line (mail_line i (actual_params i)) /\ Forall (fun r => short_line (rcpt_line r)) (i_rcpts i).
+
+Lemma main_sem i : i_rcpts i <> [] -> cmds_fit i ->
+  let '(ls, j, d) := ref_main i in
+  exists reps q, qremote_main i = Obs 0 (flat reps) (env_sent i j ++ main_tail i d ++ q)
+    /\ (q = [] \/ q = s_QUIT) /\ Forall rep_ok reps /\ map (fun r => hd 0%N r) reps = ls.
+Proof.
+  intros Hne Hfit. unfold qremote_main, ref_main.
+  destruct (Nat.eqb_spec (length (i_rcpts i)) 0) as [E0|_]; [destruct (i_rcpts i); [congruence|discriminate]|].
+  set (w := mkW [] [] [] true).
+  assert (HE : env_post i w).
+  { destruct (pipel i) eqn:Ep.
+    - apply send_envelope_pipe; auto.
+    - destruct (Hfit Ep). apply send_envelope_nopipe; auto. }
+  unfold env_post in HE. destruct (ref_env i) as [[ls j] k]. destruct k as [rest|].
+  - destruct HE as (w1 & E1 & K1 & N1 & (r1 & S1 & M1 & F1)). rewrite E1. cbn [Z.eqb negb].
+    pose proof (send_data_sem i rest w1 K1) as HD. destruct (ref_data rest) as [ld b].
+    destruct HD as (w2 & q & E2 & Hq & N2 & (r2 & S2 & M2 & F2)). unfold data_then_exit in E2.
+    exists (r1 ++ r2), q. split.
+    + destruct (send_data i rest w1) as [u scr2 w3|c w3|y]; try discriminate.
+      * rewrite E2. f_equal.
+        { rewrite S2, S1, flat_app. reflexivity. }
+        { rewrite N2, N1. cbn [w_net app main_tail]. reflexivity. }
+      * inversion E2; subst. f_equal.
+        { rewrite S2, S1, flat_app. reflexivity. }
+        { rewrite N2, N1. cbn [w_net app main_tail]. reflexivity. }
+    + split; [exact Hq|]. split; [apply Forall_app; auto|]. rewrite map_app. subst ls ld. reflexivity.
+  - destruct HE as (w1 & q & Hstop & Hq & N1 & (r1 & S1 & M1 & F1)).
+    exists r1, q. split; [|auto].
+    destruct Hstop as [E1|(z & rest & w0 & E1 & Hz & E2)].
+    + rewrite E1. f_equal; [rewrite S1; reflexivity|rewrite N1; reflexivity].
+    + rewrite E1. destruct (Z.eqb_spec z 0) as [->|_]; [congruence|]. cbn [negb]. rewrite E2.
+      f_equal; [rewrite S1; reflexivity|rewrite N1; reflexivity].
+Qed.
+
+(** no recipient argument: main() refuses at once *)
+Lemma main_noargs i : i_rcpts i = [] ->
+  exists zr, qremote_main i = Obs 0 (flat [zr]) [] /\ rep_ok zr /\ hd 0%N zr = L_Z.
+Proof.
+  intros H. unfold qremote_main. rewrite H. cbn [length Nat.eqb].
+  unfold exit_with, shutdown_abort, write_status, st_put, w_init. cbn [fst snd w_status w_net].
+  destruct (z_report_of_text QR_MSG_ARGS (msg_args_Z _)) as (zr & E & Z2 & Z3).
+  exists zr. rewrite term_eq. cbn [app]. rewrite E, flat_one. repeat split; auto.
+  intros ->. discriminate Z2.
+Qed.
